@@ -4,6 +4,8 @@ import (
 	"context"
 	"sync"
 	"sync/atomic"
+
+	"github.com/openfga/openfga/internal/verifhook"
 )
 
 // Reporter updates a single entry in a [StatusPool]. Not safe for concurrent use.
@@ -58,6 +60,7 @@ func NewStatusPool() *StatusPool {
 
 // inc atomically increments both the total and in-flight counters.
 func (sp *StatusPool) inc() int64 {
+	verifhook.Point("track.inc", sp)
 	sp.total.Add(1)
 	return sp.inflight.Add(1)
 }
@@ -65,11 +68,14 @@ func (sp *StatusPool) inc() int64 {
 // dec atomically decrements the in-flight counter and closes the
 // quiescence channel when it reaches zero.
 func (sp *StatusPool) dec() int64 {
+	verifhook.Point("track.dec.before", sp)
 	value := sp.inflight.Add(-1)
+	verifhook.Point("track.dec.after", sp, value)
 	if value == 0 {
 		// Swap ensures the channel is closed exactly once even if
 		// multiple goroutines race to decrement to zero.
 		if !sp.zero.Swap(true) {
+			verifhook.Point("track.quiescence", sp)
 			close(sp.quiescence)
 		}
 	}
@@ -95,6 +101,7 @@ func (sp *StatusPool) set(index int) {
 	defer sp.mu.Unlock()
 
 	if sp.pool[index] {
+		verifhook.Point("track.set", sp, index)
 		sp.pool[index] = false
 
 		for _, value := range sp.pool {
